@@ -4,16 +4,12 @@ import json, os
 HOME = os.path.dirname(os.path.dirname(os.path.abspath(__file__)))
 ALL = ['C%02d' % i for i in range(1, 21)]
 
-CLAIMED = {
- 'C05': dict(
-   text='Lean 4 proofs about the executable coring model (length, labels, per-trajectory, tau=1, runs >= tau, '
-        'shortcut soundness, iterative = successive, idempotence, error iff no core, equivariance) for all trajectories, '
-        'all tau, all label maps; the model is tied to md.dynamical_coring by an exhaustive small-scope + random '
-        'correspondence check through the public API, and every real output is judged by the Lean `holds` oracle.',
-   note='Lean kernel; axioms propext/Classical.choice/Quot.sound only; model = code is checked on the explored cases, not proved; '
-        'numba typed-list conversion executed, not modelled.',
-   technique='Lean 4 proof (list induction) + differential correspondence against the real code', ref='§7 C05'),
-}
+import sys
+sys.path.insert(0, os.path.dirname(os.path.abspath(__file__)))
+from claims import CLAIMS, NOTE_COMMON   # noqa: E402
+
+CLAIMED = {pid: dict(text=t, note=NOTE_COMMON + n, technique=tech, ref='§7 ' + pid) for pid, (t, n, tech) in CLAIMS.items()}
+
 
 def main():
     checks = []
@@ -32,8 +28,7 @@ def main():
             'level_note': c['note'],
             'technique': c['technique'],
         })
-    na = [{'property_id': p, 'reason': 'check not built yet in this round (work in progress; see DESIGN.md §7)'}
-          for p in ALL if p not in CLAIMED]
+    na = [{'property_id': p, 'reason': 'no check registered'} for p in ALL if p not in CLAIMED]
     man = {
         'version': 1,
         'setup_cmd': 'cd lean && lake build',
